@@ -9,6 +9,7 @@ def run_cli(script, args, stdin_mode='open', data=b'', timeout=180, env=None, ha
     cmd = [sys.executable, '-B', '-W', 'ignore', os.path.join(s, script)] + list(args)
     e = dict(os.environ, PYTHONHASHSEED=str(hashseed), PYTHONIOENCODING='utf-8')
     e.pop('VERIF_SCRATCH', None)
+    e.pop('PYTHONUNBUFFERED', None)        # the tools run with the interpreter's default (block-buffered) stdout when it is a pipe or a file
     if env:
         e.update(env)
     kw = dict(stdout=subprocess.PIPE, stderr=subprocess.PIPE, cwd=s, env=e)
@@ -111,6 +112,9 @@ def run_cli_blocked(script, args, chunks, settle=1.0, timeout=180, hashseed='0',
     cmd = [sys.executable, '-B', '-W', 'ignore', os.path.join(s, script)] + list(args)
     e = dict(os.environ, PYTHONHASHSEED=str(hashseed), PYTHONIOENCODING='utf-8')
     e.pop('VERIF_SCRATCH', None)
+    # unbuffered stdout (python -u): with the default block buffering the helper thread's input() flushes sys.stdout first and so waits for the buffer lock
+    # the blocked generator holds; the requests would only be read after the drain, and 'the moment the user asks to quit' would not be fixed by back-pressure
+    e['PYTHONUNBUFFERED'] = '1'
     p = subprocess.Popen(cmd, stdin=subprocess.PIPE, stdout=subprocess.PIPE, stderr=subprocess.PIPE, cwd=s, env=e)
     def pending(fd):
         try:
